@@ -67,6 +67,10 @@ def judge(x, n, k, drop):
         bad.append('mutex_left_locked')
     if r['rec_calls'] != [k] * n or r['lone_rec_calls'] != 1 or r['bad_ret']:
         bad.append('exec_passthrough')
+    if r.get('nonreentrant_libc_calls', 0):
+        # localtime(), getpwuid(), strtok(), ... or libc's process-wide utmp reader (setutent/getutline_r/endutent): static storage or a cursor shared by
+        # all threads - what one call finds there depends on where the other thread's call is
+        bad.append('library_used_libc_state_shared_between_threads(%d calls)' % r['nonreentrant_libc_calls'])
     if r.get('bad_closes', 0):
         bad.append('library_closed_a_descriptor_that_was_not_open(double_close)')
     if r.get('inheritable_at_exec', 0):
@@ -191,6 +195,8 @@ def run(ck):
         ('tsan-2x1', vt, 'tsan', False, CFG_LOG, 2, 1, 2, False),
         ('tsan-drop-2x1', vt, 'tsan', False, CFG_DROP, 2, 1, 1, True),
         ('tsan-allds-2x1', vt, 'tsan', False, CFG_ALLDS, 2, 1, 1 if q else 2, False),
+        # ... with stdin on a terminal (the terminal-dependent sources - tty, tty_uid, ipaddr: the utmp search - take their full path)
+        ('asan-allds-stdin-tty-2x1', va, 'asan', False, (CFG_ALLDS, {'VS_STDIN_PTY': '1'}), 2, 1, 1, False),
         # state-hashed passes: NO preemption bound; alternatives pruned on (thread positions, mutex model, registry list) - see engine/sched.py
         ('hashed-asan-2x1', va, 'asan', False, CFG_LOG, 2, 1, 'hashed', False),
         ('hashed-tsan-2x1', vt, 'tsan', False, CFG_LOG, 2, 1, 'hashed', False),
